@@ -24,6 +24,15 @@ def one(ctx, rng, k):
     ils, xls = int(rng.choice([1, 2, 3, 5])), int(rng.choice([1, 2, 4, 7]))
     il = [il0 + ils * i for i in range(n[0])]
     xl = [xl0 + xls * j for j in range(n[1])]
+    if k % 6 == 5:
+        # rare but valid line numbers: near the int32 limits, huge increments, axes spanning 2^31 and more (ascending,
+        # inline number 0 avoided -- see the known finding)
+        from .c05 import big_axis
+        il, xl = sorted(big_axis(rng, n[0])), sorted(big_axis(rng, n[1]))
+        if 0 in il:
+            il = sorted(big_axis(rng, n[0]))
+        if 0 in il:
+            il = [il0 + ils * i for i in range(n[0])]
     cells = [(i, x) for i in range(n[0]) for x in range(n[1])]
     frac = float(rng.choice([.03, .1, .25, .4]))
     skip = set(c for c in cells if rng.random() < frac)
@@ -51,7 +60,7 @@ def one(ctx, rng, k):
     out = ctx.path('ir.sgz')
     desc = {'irregular': True, 'n': n, 'ilines': il, 'xlines': xl[:3], 'holes': sorted(skip)[:12], 'n_holes': len(skip),
             'mode': mode, 'q': q, 'bs': bs}
-    ctx.case((n, il0, ils, xl0, xls, tuple(sorted(skip)), mode, q), sample=desc)
+    ctx.case((n, tuple(il[:2]), tuple(xl[:2]), tuple(sorted(skip)), mode, q), sample=desc)
     ctx.stats['mode_' + mode] += 1
     ctx.stats['holes_%s' % ('1' if len(skip) == 1 else '2+')] += 1
     from seismic_zfp.seismicfile import SeismicFile
